@@ -104,7 +104,10 @@ type StampListener struct {
 	Endpoint string
 	Name     string
 	Ln       client.Listener
-	Served   atomic.Int64
+	// Served counts requests/tunnels answered; it is incremented before the
+	// answer is written, so a client that has its response sees the count.
+	Served *atomic.Int64
+	su     *StampUpstream
 	Handler  http.Handler
 	done     chan struct{}
 	AcceptErr atomic.Value // last error returned by Accept (string)
@@ -138,13 +141,15 @@ func Listen(ctx context.Context, upstreamAddr, endpoint, name string, o ListenOp
 		return nil, err
 	}
 	l := &StampListener{Endpoint: endpoint, Name: name, Ln: ln, Handler: o.Handler, done: make(chan struct{}), conns: map[net.Conn]struct{}{}}
+	l.su = &StampUpstream{Endpoint: endpoint, Name: name, Node: "-", Handler: o.Handler}
+	l.Served = &l.su.Served
 	go l.loop()
 	return l, nil
 }
 
 func (l *StampListener) loop() {
 	defer close(l.done)
-	su := &StampUpstream{Endpoint: l.Endpoint, Name: l.Name, Node: "-", Handler: l.Handler}
+	su := l.su
 	for {
 		c, err := l.Ln.Accept()
 		if err != nil {
@@ -156,7 +161,6 @@ func (l *StampListener) loop() {
 		l.mu.Unlock()
 		go func() {
 			su.serve(c)
-			l.Served.Store(su.Served.Load())
 			l.mu.Lock()
 			delete(l.conns, c)
 			l.mu.Unlock()
